@@ -344,6 +344,12 @@ func (g *Gen) Step() {
 			max = 1 + r.Intn(3)
 		}
 		w.Pull(s.Name, max)
+	case "pull-wait":
+		if s == nil {
+			return
+		}
+		g.settle([]*Sub{s})
+		w.PullWait(s.Name, len(s.outstanding())+5)
 	case "pull-due":
 		// jump past every running lease of one subscription, then probe
 		if s == nil {
